@@ -431,6 +431,9 @@ class Executor(Engine):
         st0, kind, data = self.loop_setup(node, st, results)
         names, yields = assigned_names(node.body)
         tnames = {n.id for n in ast.walk(node.target) if isinstance(n, ast.Name)}
+        for nd in ast.walk(node.iter):
+            if isinstance(nd, ast.Name) and nd.id in names and kind != 'range':
+                raise OutOfSubset(f'loop at line {node.lineno} mutates or rebinds its own iterable `{nd.id}`')
         bagv = lambda s_: {'yields': V(self.cur.bag_ty, s_.bag)} if s_.bag is not None else {}
         # entry
         extra0 = bagv(st0)
@@ -451,16 +454,21 @@ class Executor(Engine):
             sth.pc = sth.pc + wf + [z3.ForAll([t], z3.Select(done.t, t) <= z3.Select(data['src'].t, t))]
             extra[f'_done{ordn}'] = done
         self.assume_invs(ordn, sth, self.inv_env(sth, ordn, k, extra))
-        # guard and target binding
+        # guard and target binding (plus the implicit invariant: the iteration counter never exceeds the length)
         if kind == 'range':
             lo, hi, step = data['lo'], data['hi'], data['step']
             cur = lo + step * k
             guard = cur < hi if step > 0 else cur > hi
             tval = V(INT, cur)
+            if step == 1:
+                sth.pc = sth.pc + [k <= z3.If(hi > lo, hi - lo, 0)]
+            elif step == -1:
+                sth.pc = sth.pc + [k <= z3.If(lo > hi, lo - hi, 0)]
         elif kind in ('list', 'str'):
             src = data['src']
             n = list_len(src) if kind == 'list' else z3.Length(src.t)
             guard = k < n
+            sth.pc = sth.pc + [k <= n]
             item = list_at(src, k) if kind == 'list' else V(STR, z3.SubString(src.t, k, 1))
             tval = mk_tuple([V(INT, data['start'] + k), item]) if data['enum'] else item
         else:
@@ -591,6 +599,10 @@ class Executor(Engine):
             pc += wf
         old = dict(env)
         c.ghost_vals = {}
+        for g, gty in c.d.get('ghost_params', {}).items():
+            v, wf = self.fresh_value(g, c.ty(gty))
+            c.ghost_vals[g] = v
+            pc += wf
         for g, text in c.ghost.items():
             gv, a = self.spec_eval(text, env, old=old, ghosts=c.ghost_vals)
             c.ghost_vals[g] = gv
@@ -625,6 +637,35 @@ class Executor(Engine):
                 env2 = dict(old)
                 env2['result'] = res
                 env2['yields'] = res
+                # exit lemmas: proved in order at this exit (locals visible), then available to the ensures clauses
+                lem_pc = list(st2.pc)
+                proved_lemmas = {}
+                env3 = dict(st2.env)
+                env3['result'] = res
+                env3['yields'] = res
+                for lem in c.d.get('exit_lemmas', []):
+                    lab, text = lem[0], lem[1]
+                    opts = lem[2] if len(lem) > 2 else {}
+                    try:
+                        g, a = self.spec_bool(text, env3, old=old, ghosts=c.ghost_vals)
+                    except OutOfSubset:
+                        continue   # lemma mentions a local that does not exist on this path
+                    if 'uses' in opts:
+                        hyps = list(st2.pc) + [x for l_ in opts['uses'] for x in proved_lemmas.get(l_, [])] + a
+                    else:
+                        hyps = lem_pc + a
+                    proved_lemmas[lab] = a + [g]
+                    if opts.get('without'):
+                        # proof engineering only: DROPPING hypotheses is always sound
+                        banned = set()
+                        for nm in opts['without']:
+                            v_ = env3.get(nm)
+                            if v_ is not None:
+                                banned |= _consts_of(v_.t)
+                        hyps = [h for h in hyps if not (_consts_of(h) & banned)]
+                    self.obl(f'{c.short}#lemma[{lab}]@{line}:p{p}', hyps, g, 'lemma', line)
+                    lem_pc = lem_pc + a + [g]
+                st2 = State(st2.env, lem_pc, st2.bag, st2.old)
                 for lab, text in _labelled(c.ensures):
                     g, a = self.spec_bool(text, env2, old=old, ghosts=c.ghost_vals)
                     self.obl(f'{c.short}#ensures[{lab}]@{line}:p{p}', st2.pc + a, g, 'ensures', line)
@@ -636,7 +677,7 @@ class Executor(Engine):
                     for lab, text in _labelled(c.canary):
                         g, a = self.spec_bool(text, env2, old=old, ghosts=c.ghost_vals)
                         self.obl(f'{c.short}#canary[{lab}]@{line}:p{p}', st2.pc + a, g, 'canary', line,
-                                 expect='refuted')
+                                 expect='notproved')
             else:
                 cls, line = o[1], o[2]
                 allowed = [k_ for k_ in c.raises if self.is_subclass(cls, k_)]
@@ -652,9 +693,37 @@ class Executor(Engine):
                     self.obl(f'{c.short}#no-{cls}@{line}:p{p}', st2.pc, z3.BoolVal(False), 'exception', line)
         # vacuity: the precondition itself must be satisfiable (expect sat => "refuted" of False)
         self.obl(f'{c.short}#requires-satisfiable', c.pre_pc, z3.BoolVal(False), 'vacuity', fnode.lineno,
-                 expect='refuted')
+                 expect='notproved')
         self.cur = None
         return self.obls[n0:], npaths
+
+
+_co_cache = {}
+
+
+def _consts_of(f):
+    """names of the uninterpreted constants occurring in a term"""
+    k = f.get_id()
+    if k in _co_cache:
+        return _co_cache[k]
+    seen = set()
+    out = set()
+    stack = [f]
+    while stack:
+        x = stack.pop()
+        i = x.get_id()
+        if i in seen:
+            continue
+        seen.add(i)
+        if z3.is_quantifier(x):
+            stack.append(x.body())
+            continue
+        if z3.is_app(x):
+            if x.num_args() == 0 and x.decl().kind() == z3.Z3_OP_UNINTERPRETED:
+                out.add(x.decl().name())
+            stack.extend(x.children())
+    _co_cache[k] = out
+    return out
 
 
 class ContractOutOfDate(Exception):
